@@ -1,6 +1,7 @@
 package gen
 
 import (
+	"fmt"
 	"encoding/json"
 	"math/big"
 	"strings"
@@ -259,7 +260,35 @@ func (g *SchemaGen) arrayInstance(root, s map[string]any, depth int, flip float6
 	if n > 6 {
 		n = 6
 	}
+	// one array in twenty-five is long (17-70 elements): size-dependent code paths (scans which switch to a set,
+	// indexed de-duplication of messages, ...) are not reached by arrays of a handful of elements
+	_, hasMax := intKw(s, "maxItems")
+	wide := !g.O.NoWide && !isTuple && (!hasMax || g.R.P(0.3)) && g.R.P(0.04)
+	if wide {
+		n = g.R.Range(17, 70)
+		g.feat("wide-array")
+	}
 	out := make([]any, n)
+	_, itemsIsSchema := s["items"].(map[string]any)
+	if wide && (!itemsIsSchema || g.R.P(0.3)) {
+		// pairwise distinct scalars with a few nulls, containers and strings in between; sometimes one duplicate
+		for i := range out {
+			switch g.R.Weighted(14, 2, 2, 2) {
+			case 0:
+				out[i] = I(i)
+			case 1:
+				out[i] = nil
+			case 2:
+				out[i] = g.FreeValue(1)
+			default:
+				out[i] = fmt.Sprintf("s%d", i)
+			}
+		}
+		if g.R.P(flip + 0.1) {
+			out[n-1] = clone(out[g.R.Intn(n-1)])
+		}
+		return out
+	}
 	for i := range out {
 		switch {
 		case isTuple && i < len(tuple):
@@ -326,6 +355,20 @@ func (g *SchemaGen) objectInstance(root, s map[string]any, depth int, flip float
 		} else if _, present := o[k]; !present {
 			o[k] = g.FreeValue(1)
 		}
+	}
+	if !g.O.NoWide && g.R.P(0.04) {
+		// one object in twenty-five is wide: 14-40 further members (named so that some pattern properties of the
+		// pattern pool match them), most of them failing whatever describes them
+		prefix := g.R.Pick("k", "a", "x-", "n", "ab")
+		for i, n := 0, g.R.Range(14, 40); i < n; i++ {
+			k := fmt.Sprintf("%s%02d", prefix, i)
+			if ap, ok := s["additionalProperties"].(map[string]any); ok && g.R.P(0.5) {
+				o[k] = g.Instance(root, ap, depth+1, flip)
+			} else {
+				o[k] = g.FreeValue(1)
+			}
+		}
+		g.feat("wide-object")
 	}
 	if deps, ok := s["dependencies"].(map[string]any); ok {
 		for _, k := range sortedKeys(deps) {
